@@ -79,6 +79,7 @@ def gen_cases(tier, rng):
     n_classes = 2500 if tier == "quick" else 50000
     for _ in range(n_classes):
         h = ib.gen_hspec(rng)
+        h["classes"][-1].pop("init", None)   # evolve goes through cls(...): a class without generated __init__ is out of scope
         for cs in h["classes"]:
             if cs["kind"] == "attrs" and not cs.get("cache_hash") and rng.random() < 0.4:
                 cs["unsafe_hash"] = True
@@ -177,7 +178,7 @@ def observe(case):
         if eq_generated and all(v is not None for _, v in values):
             if not (res == rebuilt):
                 inv = False
-            if C.__hash__ is not None and C.__hash__ is not object.__hash__ and not issubclass(C, BaseException):
+            if C.__hash__ is not None and C.__hash__ is not object.__hash__ and not case["base"]["run"]["cfg"]["isExc"]:
                 if hash(res) != hash(rebuilt):
                     inv = False
         try:
